@@ -52,6 +52,7 @@ package twig
 //@ group parseexpr props: C05
 //@   requires 0 <= p.tokenIndex && p.tokenIndex <= len(p.tokens) && wfTokens(p)
 //@   ensures  old(p.tokenIndex) <= p.tokenIndex && (err == nil ==> p.tokenIndex < len(p.tokens))
+//@   ensures  err == nil ==> hashable(tag(ret0))
 //@   modifies p.tokenIndex
 //@   loop * invariant old(p.tokenIndex) <= p.tokenIndex && p.tokenIndex < len(p.tokens)
 
@@ -258,6 +259,9 @@ package twig
 //@ applyfile safety compiled.go
 //@ applyfile safety whitespace.go
 //@ applyfile safety utility.go
+//@ applyfile safety zero_alloc_tokenizer.go
+//@ applyfile safety tokenizer.go
+//@ applyfile safety buffer_pool.go
 
 // ---------------------------------------------------------------- history independence (C01)
 //@ list render_entries (*Engine).Render (*Engine).RenderTo (*Template).Render (*Template).RenderTo DebugRender
@@ -495,6 +499,7 @@ package twig
 //@ define lenPrefixed(D, I) (isU32(ditem(D, I)) && isBytes(ditem(D, I + 1)) && len(bytesval(ditem(D, I + 1))) == u32val(ditem(D, I)))
 //@ func SerializeCompiledTemplate props: C16
 //@   flag streams yes
+//@   ensures err == nil ==> freshArr(ret0)
 //@   ensures err == nil ==> dlen(ret0) == 9 && ditem(ret0, 0) == iU8(1) && ditem(ret0, 1) == iU32(len(compiled.Name)) && ditem(ret0, 2) == iBytes(compiled.Name) && ditem(ret0, 3) == iU32(len(compiled.Source)) && ditem(ret0, 4) == iBytes(compiled.Source)
 //@   ensures err == nil ==> ditem(ret0, 5) == iI64(compiled.LastModified) && ditem(ret0, 6) == iI64(compiled.CompileTime) && ditem(ret0, 7) == iU32(len(compiled.AST)) && ditem(ret0, 8) == iBytes(bytesStr(compiled.AST))
 //@ func deserializeBinaryFormat props: C16
@@ -536,10 +541,24 @@ package twig
 //@   requires e.environment != nil
 //@   ensures[C15] err == nil ==> has(e.templates, name) && e.templates[name].source == source && e.templates[name].name == name
 //@   ensures[C15] err != nil ==> tplSame()
+// what callers may rely on is the guarded statement; the property-level statement (a registered
+// template is served whatever the cache setting) is the impl contract, a recorded finding
 //@ func (*Engine).RegisterTemplate props: C15
 //@   requires e.environment != nil
 //@   nonnil template
+//@   modifies template.lastModified, entries(e.templates), e.mu
+//@   ensures[C15] e.environment.cache ==> has(e.templates, name) && e.templates[name] == template
+//@   ensures[C15] template.lastModified == ite(old(template.lastModified) == 0, template.lastModified, old(template.lastModified))
+//@ impl (*Engine).RegisterTemplate props: C15
+//@   requires e.environment != nil
+//@   nonnil template
 //@   ensures[C15] has(e.templates, name) && e.templates[name] == template
+// a compiled template registered on an engine is served under its name with the compiled source
+//@ func (*Engine).RegisterCompiledTemplate props: C16
+//@   requires e.environment != nil
+//@   nilable compiled
+//@   ensures[C16] err == nil && e.environment.cache ==> compiled != nil && has(e.templates, compiled.Name) && e.templates[compiled.Name].source == compiled.Source && e.templates[compiled.Name].name == compiled.Name
+//@   ensures[C16] err == nil && e.environment.cache && compiled.LastModified != 0 ==> e.templates[compiled.Name].lastModified == compiled.LastModified
 
 // ---------------------------------------------------------------- attribute access (C20)
 // CacheOK: every entry of the attribute cache holds what reflection answers for its key (type,
@@ -596,6 +615,7 @@ package twig
 // only when no child is an extends node, otherwise rendering is handed to that node alone.
 //@ define isExt(X, E) (typeIs(X, "*ExtendsNode") && unboxAs(X, "*ExtendsNode") == E)
 //@ define isExtNode(X) (typeIs(X, "*ExtendsNode") && unboxAs(X, "*ExtendsNode") != nil)
+//@ define inChain(M, B) (has(M, B.name) && (exists j int :: 0 <= j && j < len(M[B.name]) && isDef(M[B.name][j], B)))
 //@ define childBlock(I) unboxAs(n.children[I], "*BlockNode")
 //@ func (*RootNode).Render props: C10
 //@   flag rely_tree yes
@@ -604,12 +624,14 @@ package twig
 //@   loop 1 invariant[C10] forall k string :: old(ctx.extending) && old(has(ctx.blocks, k)) ==> has(ctx.blocks, k) && ctx.blocks[k] == old(ctx.blocks[k])
 //@   loop 1 invariant[C10] forall k string :: old(has(ctx.parentBlocks, k)) ==> has(ctx.parentBlocks, k) && len(ctx.parentBlocks[k]) >= old(len(ctx.parentBlocks[k])) && (forall j int :: 0 <= j && j < old(len(ctx.parentBlocks[k])) ==> ctx.parentBlocks[k][j] == old(ctx.parentBlocks[k][j]))
 //@   loop 1 invariant[C10] forall i int :: 0 <= i && i <= rangeindex && typeIs(n.children[i], "*BlockNode") ==> has(ctx.blocks, childBlock(i).name)
+//@   loop 1 invariant[C10] forall i int :: 0 <= i && i <= rangeindex && typeIs(n.children[i], "*BlockNode") ==> inChain(ctx.parentBlocks, childBlock(i))
 //@   loop 1 invariant[C10] forall k string :: !old(has(ctx.blocks, k)) && has(ctx.blocks, k) ==> (exists i int :: 0 <= i && i <= rangeindex && typeIs(n.children[i], "*BlockNode") && childBlock(i).name == k && ctx.blocks[k] == childBlock(i).body)
 //@   loop 1 invariant[C10] extendsNode == nil ==> (forall i int :: 0 <= i && i <= rangeindex ==> !isExtNode(n.children[i]))
 //@   loop 1 invariant[C10] extendsNode != nil ==> (exists i int :: 0 <= i && i <= rangeindex && isExt(n.children[i], extendsNode))
 //@   atcall (*ExtendsNode).Render a2 == ctx && (exists i int :: 0 <= i && i < len(n.children) && isExt(n.children[i], a0))
 //@   atcall (*ExtendsNode).Render forall k string :: old(ctx.extending) && old(has(ctx.blocks, k)) ==> has(ctx.blocks, k) && ctx.blocks[k] == old(ctx.blocks[k])
 //@   atcall (*ExtendsNode).Render forall i int :: 0 <= i && i < len(n.children) && typeIs(n.children[i], "*BlockNode") ==> has(ctx.blocks, childBlock(i).name)
+//@   atcall (*ExtendsNode).Render forall i int :: 0 <= i && i < len(n.children) && typeIs(n.children[i], "*BlockNode") ==> inChain(ctx.parentBlocks, childBlock(i))
 //@   loop 2 invariant[C10] forall i int :: 0 <= i && i < len(n.children) ==> !isExtNode(n.children[i])
 //@   loop 2 invariant[C10] 0 - 1 <= rangeindex && rangeindex < len(n.children) && tr == rendersUpTo(old(tr), elemsArr(n.children), off(n.children), rangeindex + 1, ctx)
 //@   ensures[C10] err == nil && (forall i int :: 0 <= i && i < len(n.children) ==> !isExtNode(n.children[i])) ==> tr == rendersUpTo(old(tr), elemsArr(n.children), off(n.children), len(n.children), ctx)
@@ -654,3 +676,130 @@ package twig
 //@   atcall dyn(*RenderContext) a0 == ctx
 //@   atcall dyn(io.Writer) a0 == w
 //@   atcall WriteString a0 == w
+
+// ---------------------------------------------------------------- range() (C09)
+// range(a, b, s) is the list a, a+s, a+2s, ... of the values that do not pass b (b included when it
+// is hit), empty when a is already past b; range(b) starts at 0 and range(a, b) steps by 1; step 0
+// is an error. Stated without multiplication: first element, constant difference, last element
+// within one step of the bound.
+//@ define rStart() ite(len(args) == 1, 0, fn_toInt_0(args[0]))
+//@ define rEnd() ite(len(args) == 1, fn_toInt_0(args[0]), fn_toInt_0(args[1]))
+//@ define rStep() ite(len(args) == 3, fn_toInt_0(args[2]), 1)
+//@ define rList() unboxAs(ret0, "[]interface{}")
+//@ define rAt(K) unboxAs(rList()[K], "int")
+//@ func (*CoreExtension).functionRange props: C09 C05
+//@   loop * invariant (forall k int :: 0 <= k && k < len(args) ==> args[k] == old(args[k])) && (freshArr(result) || len(result) == 0)
+//@   loop 1 invariant[C09] step > 0 && (forall k int :: 0 <= k && k < len(result) ==> typeIs(result[k], "int")) && (forall k int :: 1 <= k && k < len(result) ==> unboxAs(result[k], "int") == unboxAs(result[k - 1], "int") + step)
+//@   loop 1 invariant[C09] (len(result) == 0 ==> i == start) && (len(result) > 0 ==> unboxAs(result[0], "int") == start && unboxAs(result[len(result) - 1], "int") == i - step && i - step <= end && start <= end)
+//@   loop 2 invariant[C09] step < 0 && (forall k int :: 0 <= k && k < len(result) ==> typeIs(result[k], "int")) && (forall k int :: 1 <= k && k < len(result) ==> unboxAs(result[k], "int") == unboxAs(result[k - 1], "int") + step)
+//@   loop 2 invariant[C09] (len(result) == 0 ==> i == start) && (len(result) > 0 ==> unboxAs(result[0], "int") == start && unboxAs(result[len(result) - 1], "int") == i - step && i - step >= end && start >= end)
+//@   ensures[C09] err == nil ==> 1 <= len(args) && len(args) <= 3 && rStep() != 0 && typeIs(ret0, "[]interface{}")
+//@   ensures[C09] err == nil ==> (len(rList()) == 0) == ((rStep() > 0 && rStart() > rEnd()) || (rStep() < 0 && rStart() < rEnd()))
+//@   ensures[C09] err == nil && len(rList()) > 0 ==> typeIs(rList()[0], "int") && rAt(0) == rStart()
+//@   ensures[C09] err == nil ==> (forall k int :: 1 <= k && k < len(rList()) ==> typeIs(rList()[k], "int") && rAt(k) == rAt(k - 1) + rStep())
+//@   ensures[C09] err == nil && len(rList()) > 0 && rStep() > 0 ==> rAt(len(rList()) - 1) <= rEnd() && rEnd() < rAt(len(rList()) - 1) + rStep()
+//@   ensures[C09] err == nil && len(rList()) > 0 && rStep() < 0 ==> rAt(len(rList()) - 1) >= rEnd() && rEnd() > rAt(len(rList()) - 1) + rStep()
+//@   ensures[C09] len(args) >= 1 && len(args) <= 3 && rStep() == 0 && fn_toInt_1(args[0]) == nil && (len(args) < 2 || fn_toInt_1(args[1]) == nil) && (len(args) < 3 || fn_toInt_1(args[2]) == nil) ==> err != nil
+
+// ---------------------------------------------------------------- variable lookup (C11)
+// A name that is not found in the context's own variables nor among the globals is looked up in the
+// parent context, whatever the nesting depth: the result is exactly what the parent's lookup yields
+// (the event of that lookup is named, not interpreted); without a parent it is undefined (nil).
+// Names that the tokenizer's single-name shortcut passes through ("[..]" lists, "a ? b : c") take
+// the compatibility branches at the top of the function and are outside this contract.
+//@ ghost lk Tr
+//@ define plainName() !(len(name) >= 2 && name[0] == 91 && str_contains(name, "]")) && !(str_contains(name, "?") && str_contains(name, ":"))
+//@ define globalHas() (ctx.env != nil && has(ctx.env.globals, name))
+//@ func (*RenderContext).GetVariable
+//@   assumed
+//@   modifies nothing
+//@   ghostset lk emitLookup(old(lk), ctx, name)
+//@   ensures ret0 == lookRes(old(lk), ctx, name) && ret1 == lookErr(old(lk), ctx, name)
+//@ impl (*RenderContext).GetVariable props: C11
+//@   requires ctx.context != nil
+//@   ensures[C11] plainName() && has(ctx.context, name) ==> ret0 == ctx.context[name] && ret1 == nil && lk == old(lk)
+//@   ensures[C11] plainName() && !has(ctx.context, name) && globalHas() ==> ret0 == ctx.env.globals[name] && ret1 == nil && lk == old(lk)
+//@   ensures[C11] plainName() && !has(ctx.context, name) && !globalHas() && ctx.parent != nil ==> lk == emitLookup(old(lk), ctx.parent, name) && ret0 == lookRes(old(lk), ctx.parent, name) && ret1 == lookErr(old(lk), ctx.parent, name)
+//@   ensures[C11] plainName() && !has(ctx.context, name) && !globalHas() && ctx.parent == nil ==> ret0 == nil && ret1 == nil && lk == old(lk)
+
+// values that may be used as keys of a map[interface{}] (C05: hash of unhashable type)
+//@ func isMapKeyable props: C05
+//@   pure
+//@   ensures ret ==> hashable(tag(v))
+//@ func (*Parser).parseSimpleExpression props: C05
+//@   loop 2 invariant hashable(tag(result))
+//@   loop 3 invariant hashable(tag(result))
+//@ func (*Parser).parseFilters props: C05
+//@   requires hashable(tag(node))
+//@   loop 1 invariant hashable(tag(cur(node)))
+//@ func (*Parser).parseExpression props: C05
+//@   loop * invariant hashable(tag(expr))
+
+// ---------------------------------------------------------------- tag recognition (C04, C14, C05)
+// One specification of "where the next tag starts and where it ends", as functions of the source
+// bytes and a position, against which both tokenizers are checked: an opener is '{' followed by
+// '{', '%' or '#'; the tag found is the first opener at or after the scan position; a dash right
+// after "{{" / "{%" belongs to the opener; the closer is the first "}}" / "%}" / "#}" at or after the
+// end of the opener. Nothing here looks at any other byte, so every byte value is covered.
+//@ define openAt(S, P) (0 <= P && P + 1 < len(S) && S[P] == 123 && (S[P + 1] == 123 || S[P + 1] == 37 || S[P + 1] == 35))
+//@ define dashAt(S, P) (0 <= P && P < len(S) && S[P] == 45)
+//@ define closeAt(S, Q, C) (0 <= Q && Q + 1 < len(S) && S[Q] == C && S[Q + 1] == 125)
+//@ define noOpen(S, A, B) (forall q int :: A <= q && q < B ==> !openAt(S, q))
+//@ define noClose(S, A, B, C) (forall q int :: A <= q && q < B ==> !closeAt(S, q, C))
+//@ define closerByte(T) ite(T == TAG_VAR || T == TAG_VAR_TRIM, 125, ite(T == TAG_BLOCK || T == TAG_BLOCK_TRIM, 37, 35))
+//@ func FindNextTag props: C04 C14 C05
+//@   pure
+//@   strings content
+//@   loop 1 invariant 0 <= i && noOpen(source, startPos, startPos + i)
+//@   ensures ret.Position == 0 - 1 ==> ret.Type == TAG_NONE && ret.Length == 0 && (0 <= startPos ==> noOpen(source, startPos, len(source)))
+//@   ensures ret.Position != 0 - 1 ==> 0 <= startPos && startPos <= ret.Position && openAt(source, ret.Position) && noOpen(source, startPos, ret.Position)
+//@   ensures ret.Position != 0 - 1 && source[ret.Position + 1] == 123 ==> ret.Type == ite(dashAt(source, ret.Position + 2), TAG_VAR_TRIM, TAG_VAR) && ret.Length == ite(dashAt(source, ret.Position + 2), 3, 2)
+//@   ensures ret.Position != 0 - 1 && source[ret.Position + 1] == 37 ==> ret.Type == ite(dashAt(source, ret.Position + 2), TAG_BLOCK_TRIM, TAG_BLOCK) && ret.Length == ite(dashAt(source, ret.Position + 2), 3, 2)
+//@   ensures ret.Position != 0 - 1 && source[ret.Position + 1] == 35 ==> ret.Type == TAG_COMMENT && ret.Length == 2
+//@ func FindTagEnd props: C04 C14 C05
+//@   pure
+//@   requires 0 <= startPos && TAG_VAR <= tagType && tagType <= TAG_COMMENT
+//@   loop * invariant startPos <= i && noClose(source, startPos, i, closerByte(tagType))
+//@   ensures ret == 0 - 1 ==> noClose(source, startPos, len(source), closerByte(tagType))
+//@   ensures ret != 0 - 1 ==> startPos <= ret && closeAt(source, ret, closerByte(tagType)) && noClose(source, startPos, ret, closerByte(tagType))
+
+// ---------------------------------------------------------------- tokenizers (C04, C14, C05)
+// AddToken appends exactly one token and keeps every earlier token, whatever the capacity of the
+// buffer (Go's append: in place or into a larger array)
+//@ func (*ZeroAllocTokenizer).AddToken props: C04 C14 C05
+//@   modifies t.tokenBuffer, elems(t.tokenBuffer)
+//@   ensures len(t.tokenBuffer) == old(len(t.tokenBuffer)) + 1
+//@   ensures t.tokenBuffer[old(len(t.tokenBuffer))].Type == tokenType && t.tokenBuffer[old(len(t.tokenBuffer))].Value == value && t.tokenBuffer[old(len(t.tokenBuffer))].Line == line
+//@   ensures forall k int :: 0 <= k && k < old(len(t.tokenBuffer)) ==> t.tokenBuffer[k] == old(t.tokenBuffer[k])
+// the tag-content tokenizers only add tokens (and remember short strings)
+//@ group tokwrites props: C05
+//@   modifies t.tokenBuffer, elems(t.tokenBuffer), t.tempStrings, elems(t.tempStrings)
+//@ apply tokwrites (*ZeroAllocTokenizer).processBlockTag
+//@ apply tokwrites (*ZeroAllocTokenizer).TokenizeExpression
+//@ apply tokwrites (*ZeroAllocTokenizer).tokenizeObjectContents
+//@ apply tokwrites (*ZeroAllocTokenizer).tokenizeTemplatePath
+//@ apply tokwrites (*ZeroAllocTokenizer).GetStringConstant
+//@ func countNewlines props: C05
+//@   pure
+//@ func Intern props: C05
+//@   pure
+// Each round of the main loop starts right behind a closing delimiter (or behind an opener that a
+// backslash turned into text); the text token it emits is exactly the source between that position
+// and the first opener after it; the tag's tokens are produced from the source between the end of
+// the opener and the first closer; the next round starts two bytes after the start of that closer.
+// So the text tokens and the tag spans partition the source, byte for byte.
+//@ define afterCloser(S, P) (2 <= P && P <= len(S) && S[P - 1] == 125 && (S[P - 2] == 125 || S[P - 2] == 37 || S[P - 2] == 35))
+//@ define afterOpener(S, P) ((2 <= P && openAt(S, P - 2)) || (3 <= P && openAt(S, P - 3) && dashAt(S, P - 1)))
+//@ define startTok(S, P) ite(S[P + 1] == 123, ite(dashAt(S, P + 2), TOKEN_VAR_START_TRIM, TOKEN_VAR_START), ite(S[P + 1] == 37, ite(dashAt(S, P + 2), TOKEN_BLOCK_START_TRIM, TOKEN_BLOCK_START), TOKEN_COMMENT_START))
+//@ define dashCloser(S, A, E) (A < E && S[E - 1] == 45)
+//@ define endTok(S, P, A, E) ite(S[P + 1] == 123, ite(dashCloser(S, A, E), TOKEN_VAR_END_TRIM, TOKEN_VAR_END), ite(S[P + 1] == 37, ite(dashCloser(S, A, E), TOKEN_BLOCK_END_TRIM, TOKEN_BLOCK_END), TOKEN_COMMENT_END))
+//@ func (*ZeroAllocTokenizer).TokenizeOptimized props: C04 C14 C05
+//@   loop 1 invariant 0 <= pos && pos <= len(t.source) && t.source == old(t.source) && (pos == 0 || afterCloser(t.source, pos) || afterOpener(t.source, pos))
+//@   atcall (*ZeroAllocTokenizer).AddToken#1 a1 == TOKEN_TEXT && pos < len(t.source) && a2 == substr(t.source, pos, len(t.source)) && noOpen(t.source, pos, len(t.source))
+//@   atcall (*ZeroAllocTokenizer).AddToken#4 a1 == TOKEN_TEXT && pos < tagLoc.Position && a2 == substr(t.source, pos, tagLoc.Position) && openAt(t.source, tagLoc.Position) && noOpen(t.source, pos, tagLoc.Position)
+//@   atcall (*ZeroAllocTokenizer).AddToken#5 a2 == "" && openAt(t.source, tagLoc.Position) && noOpen(t.source, pos, tagLoc.Position) && a1 == startTok(t.source, tagLoc.Position)
+//@   atcall (*ZeroAllocTokenizer).AddToken#6 a1 == TOKEN_TEXT && t.source[tagLoc.Position + 1] == 35 && a2 == substr(t.source, tagLoc.Position + 2, tagEndPos)
+//@   atcall (*ZeroAllocTokenizer).AddToken#8 a2 == "" && endLength == 2 && tagContentStart == tagLoc.Position + ite(t.source[tagLoc.Position + 1] != 35 && dashAt(t.source, tagLoc.Position + 2), 3, 2)
+//@   atcall (*ZeroAllocTokenizer).AddToken#8 closeAt(t.source, tagEndPos, ite(t.source[tagLoc.Position + 1] == 123, 125, t.source[tagLoc.Position + 1])) && noClose(t.source, tagContentStart, tagEndPos, ite(t.source[tagLoc.Position + 1] == 123, 125, t.source[tagLoc.Position + 1]))
+//@   atcall (*ZeroAllocTokenizer).AddToken#8 a1 == endTok(t.source, tagLoc.Position, tagContentStart, tagEndPos)
+//@   atcall (*ZeroAllocTokenizer).AddToken#9 a1 == TOKEN_EOF && a2 == ""
